@@ -293,6 +293,49 @@ func c03Case(ctx *core.Ctx, idx int) core.Result {
 	return res
 }
 
+// c03Uninit: a function that reads a local it did not assign on that path
+// returns nil whatever ran before and wherever its frame lands (the suite
+// pins "uninitialised local reads as nil"); earlier calls dirty the stack
+// slots the frame will occupy, the call depth sweeps across allocation
+// boundaries.
+func c03Uninit(ctx *core.Ctx, idx int) core.Result {
+	r := core.CaseRng(ctx.Seed, "C03/uninit", idx)
+	nloc := r.Range(1, 12)
+	var dirtyBody []ast.Node
+	var sum ast.Node = il(0)
+	for i := 0; i < nloc; i++ {
+		nmv := wideName(i)
+		dirtyBody = append(dirtyBody, ast.Assign{Name: nmv, Value: ast.Binary{Op: "+", L: nm("n"), R: il(int64(i + 1))}})
+		sum = ast.Binary{Op: "+", L: sum, R: nm(nmv)}
+	}
+	dirtyBody = append(dirtyBody, sum)
+	var probeBody []ast.Node
+	for i := 0; i < nloc; i++ {
+		probeBody = append(probeBody, ast.If{Cond: ast.Binary{Op: ">", L: nm("n"), R: il(100)}, Then: ast.Assign{Name: wideName(i), Value: il(1)}})
+	}
+	probeBody = append(probeBody, nm(wideName(r.Intn(nloc))))
+	stmts := []ast.Node{
+		ast.Assign{Name: "dirty", Value: ast.FuncLit{Params: []string{"n"}, Body: ast.Block{Stmts: dirtyBody}}},
+		ast.Assign{Name: "probe", Value: ast.FuncLit{Params: []string{"n"}, Body: ast.Block{Stmts: probeBody}}},
+		ast.Assign{Name: "at", Value: ast.FuncLit{Params: []string{"d", "k"}, Body: ast.If{Cond: ast.Binary{Op: "<=", L: nm("d"), R: il(0)},
+			Then: ast.If{Cond: ast.Binary{Op: "==", L: nm("k"), R: il(1)}, Then: icall("dirty", il(7)), Else: icall("probe", il(0))},
+			Else: icall("at", ast.Binary{Op: "-", L: nm("d"), R: il(1)}, nm("k"))}}},
+	}
+	// sweep a window of call depths around a random base: the stack is 3 slots per `at` frame
+	base := r.Range(0, 400)
+	for d := base; d < base+45; d++ {
+		stmts = append(stmts, icall("at", il(int64(d)), il(1)), icall("at", il(int64(d+1)), il(0)), icall("at", il(int64(d)), il(0)))
+	}
+	opts := diffOpts{DoOut: true, Stress: []string{"plain", "tight"}[idx%2], Residue: true}
+	d := runDiff(stmts, opts)
+	res := diffCase("C03", stmts[:3], opts, d, map[string]any{"family": "uninit", "depth_window": []int{base, base + 45}, "locals": nloc})
+	res.Hash = core.Mix(sessionHash(stmts) ^ uint64(idx%2))
+	res.Add("placements_compared", d.Executed)
+	res.Tag("function:uninitialised-local-probe")
+	res.Nontrivial = d.Verdict == core.Held
+	return res
+}
+
 func init() {
 	register(&core.Property{
 		ID: "C03",
@@ -300,8 +343,9 @@ func init() {
 		Assumptions: []string{"functions whose plain evaluation the reference finds ambiguous are dropped", "global bindings are unchanged between placements by construction (noise uses disjoint names)"},
 		Families: []core.Family{
 			{Name: "placements", Count: countFn(1500, 150000), Run: c03Case},
+			{Name: "uninit", Count: countFn(300, 30000), Run: c03Uninit},
 		},
-		Floors: []core.Floor{{Key: "placements_compared", Quick: 12000, Thor: 1200000}, {Key: "tag:placement:", Quick: 13, Thor: 13}, {Key: "tag:function:", Quick: 4, Thor: 4}, {Key: "stack_growths", Quick: 3000, Thor: 300000}, {Key: "context_clone_reuse", Quick: 500, Thor: 50000}},
+		Floors: []core.Floor{{Key: "placements_compared", Quick: 12000, Thor: 1200000}, {Key: "tag:placement:", Quick: 13, Thor: 13}, {Key: "tag:function:", Quick: 5, Thor: 5}, {Key: "stack_growths", Quick: 3000, Thor: 300000}, {Key: "context_clone_reuse", Quick: 500, Thor: 50000}},
 	})
 	core.CaseSeconds["C03/placements"] = 1
 }
